@@ -369,6 +369,8 @@ class Inventory:
             return ("Const", t[1])
         if k == "alt":
             cs = [self.classify(x, depth + 1) for x in t[1]]
+            if not cs:
+                return ("Unknown", "empty alternative")
             # a loop-carried alternative that only feeds the value back into itself adds nothing
             acyc = [c for c in cs if not _is_cycle(c)]
             if acyc and len(acyc) < len(cs):
